@@ -161,6 +161,7 @@ InitS(wc, batch) ==
    removed |-> [a \in Ids |-> FALSE],   \* a's metadata was deleted by deleteObjs and nobody uploaded a since
    kf |-> [a \in Ids |-> "none"],       \* how a's blob became an orphan (signature of known finding H9)
    kf15 |-> [a \in Ids |-> "none"],     \* why an available a lost its only copy (signature of the C15 known finding)
+   hold |-> 0,                          \* address a paused explicit flush has READ from the cache and not yet put (0 = none)
    lastSet |-> "none",                  \* C43: outcome of the last SetMode of this instance
    quiet |-> FALSE,                     \* C44: users stopped; only epochs and GC passes from now on
    passes |-> 0]                        \* C44: complete GC passes since quiet in the last epoch (MaxEpoch > LastExp)
@@ -305,6 +306,21 @@ DoInhumeCnr(s, c) ==
   ELSE IF MetaWErr(s) # "ok" THEN [s EXCEPT !.res = MetaWErr(s)]
   ELSE [s EXCEPT !.res = "ok", !.m = MetaInhumeCnr(s.m, c)]
 
+(* Flush-versus-delete schedule: FlushWriteCache runs concurrently with other requests; it is paused between reading
+   object a from the cache (flushSingle: c.getObject) and c.storage.Put.  `pre` = addresses it flushed before reaching a,
+   `post` = addresses it flushes after a; both as observed (the iteration order of the cache directory is free). *)
+FlushAll(s, ids) == [s EXCEPT !.blob = [x \in Ids |-> IF x \in ids /\ s.wc[x] THEN TRUE ELSE @[x]],
+                              !.wc   = [x \in Ids |-> IF x \in ids /\ s.wcMode = "RW" THEN FALSE ELSE @[x]]]
+CanHold(s, a) == s.pc = <<>> /\ s.hold = 0 /\ s.hasWC /\ s.wc[a] /\ s.mode = "RW" /\ ~s.blobRO
+DoFlushHold(s, a, pre) == [FlushAll(s, pre) EXCEPT !.hold = a, !.res = "ok"]
+DoFlushRelease(s, post) ==
+  LET a == s.hold
+      t == [s EXCEPT !.blob[a] = TRUE,                                 \* the bytes read earlier are put now ...
+                     !.wc[a] = FALSE,                                   \* ... and the cache entry (if still there) is dropped
+                     !.kf[a] = IF ~s.m.stored[a] /\ s.removed[a] THEN "flushrace" ELSE @,
+                     !.hold = 0, !.res = "ok"]
+  IN FlushAll(t, post)
+
 \* offline `neofs-lancet meta resync` between two runs of the node (shard closed, reopened afterwards)
 Restart(s) == [s EXCEPT !.pc = <<>>, !.res = "ok", !.gcEpoch = 0, !.procEpoch = 0, !.lastSet = "none",
                         !.mode = "RW", !.wcMode = "RW", !.blobRO = FALSE, !.metaMode = "RW", !.metaOpen = TRUE]
@@ -376,7 +392,7 @@ UserOps ==
   \cup {[op |-> "GC"], [op |-> "Flush"]}
 
 \* C44: after Quiesce only GC passes and epoch ticks happen
-AllowedNow(o) == ~S.quiet \/ o = "GC"
+AllowedNow(o) == (~S.quiet \/ o = "GC") /\ (S.hold # 0 => o # "Flush")
 Tick == Idle(S) /\ "Epoch" \in Ops /\ S.epoch < MaxEpoch /\ S' = DoEpoch(S, S.epoch + 1)
 GCProgress == \/ Idle(S) /\ "GC" \in Ops /\ S' = StartOp(S, [op |-> "GC"])
               \/ ~Idle(S) /\ \E ch \in Choices(S) : S' = StepCh(S, ch)
@@ -385,17 +401,19 @@ Next ==
   \/ /\ Idle(S)
      /\ \/ \E o \in {u \in UserOps : u.op \in Ops /\ AllowedNow(u.op)} : S' = StartOp(S, o)
         \/ Tick
+        \/ "FlushRace" \in Ops /\ S.hold = 0 /\ \E a \in Objs : CanHold(S, a) /\ S' = DoFlushHold(S, a, {})
+        \/ "FlushRace" \in Ops /\ S.hold # 0 /\ S' = DoFlushRelease(S, {x \in Ids : S.wc[x] /\ x # S.hold})
         \/ "Quiesce" \in Ops /\ ~S.quiet /\ S.epoch < MaxEpoch /\ S' = [S EXCEPT !.quiet = TRUE]   \* epochs keep advancing afterwards
   \/ /\ Idle(S) /\ ~S.quiet
      /\ \/ "MarkDef" \in Ops /\ \E a \in Objs : S' = DoMark(S, Cat[a].c, {a}, "def")
         \/ "MarkRed" \in Ops /\ \E a \in Objs : S' = DoMark(S, Cat[a].c, {a}, "red")
         \/ "InhumeCnr" \in Ops /\ \E c \in {Cat[a].c : a \in Objs} : S' = DoInhumeCnr(S, c)
-        \/ "Resync" \in Ops /\ \E order \in {AscSeq({a \in Ids : S.blob[a]}), SortBy({a \in Ids : S.blob[a]}, LAMBDA a : 0 - a)} :
+        \/ "Resync" \in Ops /\ S.hold = 0 /\ \E order \in {AscSeq({a \in Ids : S.blob[a]}), SortBy({a \in Ids : S.blob[a]}, LAMBDA a : 0 - a)} :
                S' = DoResync(S, order)
         \/ "SetMode" \in Ops /\ \E m \in Modes, f \in ({"none"} \cup (Faults \cap {"wc", "blob", "meta"})) :
                (f \in {"wc", "meta"} => ~NoMeta(m)) /\ S' = DoSetMode(S, m, f)
   \/ ~Idle(S) /\ \E ch \in Choices(S) : S' = StepCh(S, ch)
-  \/ "crash" \in Faults /\ S' = DoCrash(S)
+  \/ "crash" \in Faults /\ S.hold = 0 /\ S' = DoCrash(S)
 
 Spec == Init /\ [][Next]_vars
 
